@@ -191,6 +191,25 @@ def SSt.apply (s : SSt) : SOp → Option (SSt × DRes)
   | .back => some (s, .ptr s.tail)
   | .next e => some (s, .ptr (s.next.get e))
 
+def SSt.run : SSt → List SOp → Option (SSt × List DRes)
+  | s, [] => some (s, [])
+  | s, op :: ops => do
+    let (s1, r) ← s.apply op
+    let (s2, rs) ← s1.run ops
+    pure (s2, r :: rs)
+
+/-- `for v := range l.All() { body }` / `for e := l.Front(); e != nil; e = e.Next() { body }`:
+value read, body run, then `e.Next()` evaluated in the memory the body left behind. -/
+def SSt.rangeAll (body : Nat → List SOp) (stop : Nat → Bool) :
+    Nat → Nat → Ptr → SSt → List (Nat × Int) → Option (SSt × List (Nat × Int) × Bool)
+  | _, _, none, s, acc => some (s, acc.reverse, true)
+  | 0, _, some _, s, acc => some (s, acc.reverse, false)
+  | f + 1, i, some e, s, acc => do
+    let y := (e, s.val.get e)
+    let (s1, _) ← s.run (body i)
+    if stop i then some (s1, (y :: acc).reverse, true)
+    else SSt.rangeAll body stop f (i + 1) (s1.next.get e) s1 (y :: acc)
+
 def parseSOp (s : SSt) (ts : List String) : Option SOp :=
   match ts with
   | ["new", v] => do let v ← v.toInt?; pure (.new v)
@@ -241,22 +260,38 @@ def SSt.stepBulk (s : SSt) (ts : List String) : Option (Option (SSt × String)) 
   | ["removeln", k] => do
     let k ← k.toNat?
     pure ((SSt.removeN true k s).map fun s1 => (s1, "ok"))
+  | "allbody" :: script => do
+    let (ops, brk) ← parseBody (parseSOp s) script
+    pure ((SSt.rangeAll (bodyAt ops) (fun i => brk.contains i) bigCap 0 s.head s []).map
+      fun (s1, ys, ok) => (s1, showYield ys false ok))
+  | "walkbody" :: script => do
+    let (ops, brk) ← parseBody (parseSOp s) script
+    pure ((SSt.rangeAll (bodyAt ops) (fun i => brk.contains i) bigCap 0 s.head s []).map
+      fun (s1, ys, ok) => (s1, showYield ys true ok))
   | _ => s.step ts
 
-def runSOps (big : Bool) : Option SSt → List String → List String
-  | _, [] => []
-  | none, _ :: ls => "dead" :: runSOps big none ls
-  | some s, l :: ls =>
+/-- Driver state: the list in focus (`SSt`) and the `head`/`tail`/`len` of a second `SList` that
+shares the node store; the line `flip` exchanges the two.  (The refinement theorem speaks about
+one list; the second list is exercised by the differential run only.) -/
+def runSOps (big : Bool) : Ptr × Ptr × Int → Option SSt → List String → List String
+  | _, _, [] => []
+  | pk, none, _ :: ls => "dead" :: runSOps big pk none ls
+  | pk, some s, l :: ls =>
+    if toks l = ["flip"] then
+      let s1 := { s with head := pk.1, tail := pk.2.1, len := pk.2.2 }
+      ("ok | " ++ (if big then s1.dumpBig else s1.dump)) :: runSOps big (s.head, s.tail, s.len) (some s1) ls
+    else
     match s.stepBulk (toks l) with
-    | none => "bad-op" :: runSOps big (some s) ls
-    | some none => "panic" :: runSOps big none ls
+    | none => "bad-op" :: runSOps big pk (some s) ls
+    | some none => "panic" :: runSOps big pk none ls
     | some (some (s1, out)) =>
-      (out ++ " | " ++ (if big then s1.dumpBig else s1.dump)) :: runSOps big (some s1) ls
+      (out ++ " | " ++ (if big then s1.dumpBig else s1.dump)) :: runSOps big pk (some s1) ls
 
 /-- Header `@ C13 slist [z|n] [big]` (`z` = `new(SList)`, `n` = `NewSingly()`: the same state). -/
 def runSListCase (hdr : List String) (ops : List String) : List String :=
   let go (big : Bool) : List String :=
-    ("ok | " ++ (if big then SSt.zero.dumpBig else SSt.zero.dump)) :: runSOps big (some SSt.zero) ops
+    ("ok | " ++ (if big then SSt.zero.dumpBig else SSt.zero.dump)) ::
+      runSOps big (none, none, 0) (some SSt.zero) ops
   match hdr with
   | [] => go false
   | ["z"] => go false
